@@ -393,7 +393,12 @@ impl stateright::Model for SrModel {
         sr_successors(&s.bytes, self.size_cap)[a].clone().map(|(bytes, bad)| SrState { bytes, bad })
     }
     fn properties(&self) -> Vec<stateright::Property<Self>> {
-        vec![stateright::Property::<Self>::always("every step canonical and equal to the tree result", |_, s: &SrState| !s.bad)]
+        // The verdict of a transition is judged when its SOURCE state is checked: stateright evaluates
+        // properties on the states it dequeues, and states of the last level are generated (and
+        // counted) but not dequeued, so a flag carried by the successor alone would be missed there.
+        vec![stateright::Property::<Self>::always("every step canonical and equal to the tree result", |m: &SrModel, s: &SrState| {
+            !s.bad && sr_successors(&s.bytes, m.size_cap).iter().all(|x| !matches!(x, Some((_, true))))
+        })]
     }
 }
 
